@@ -27,7 +27,7 @@ CABI = os.path.join(tlc.VERIF, "corpus", "cabi", "cabi.ndjson")
 TLC_TIMEOUT = int(os.environ.get("C16_TLC_TIMEOUT", "21600"))
 
 # at most this many TLC JVMs of this check at a time (the machine-wide slot limiter of harness/tlc.py is shared)
-GATE = threading.BoundedSemaphore(int(os.environ.get("C16_MAX_JVMS", "7")))
+GATE = threading.BoundedSemaphore(int(os.environ.get("C16_MAX_JVMS", "8")))
 
 
 def _gen(cfg, kind, seed, simulate, depth, workers, wd, out):
@@ -95,17 +95,19 @@ def run(ctx):
                 ("CStructGenNest_quick.cfg", "nest", None, None, 8),
                 ("CStructGenVar_quick.cfg", "var", None, None, 4),
                 ("CStructGenUnion_quick.cfg", "union", None, None, 2),
+                ("CStructGenOrd_quick.cfg", "ord", None, None, 2),
                 ("CStructSim_quick.cfg", "sim", "num=3", 60, 8)]
     else:
         # (longest first: at most C16_MAX_JVMS run at a time)
-        gens = [("CStructSim.cfg", "sim", "num=250", 60, 8),
+        gens = [("CStructSim.cfg", "sim", "num=150", 60, 8),
                 ("CStructGenNest_thorough.cfg", "nest3", None, None, 8),
                 ("CStructGen_thorough.cfg", "flat4", None, None, 8),
                 ("CStructGenNest2_thorough.cfg", "nest2", None, None, 8),
                 ("CStructGenNest_all.cfg", "nest", None, None, 4),
                 ("CStructGen_all.cfg", "flat", None, None, 4),
                 ("CStructGenVar_all.cfg", "var", None, None, 2),
-                ("CStructGenUnion_all.cfg", "union", None, None, 1)]
+                ("CStructGenUnion_all.cfg", "union", None, None, 1),
+                ("CStructGenOrd_all.cfg", "ord", None, None, 2)]
     for cfg, kind, sim, depth, w in gens:
         t = threading.Thread(target=_gen, args=(cfg, kind, ctx.seed, sim, depth, w, wd, out))
         t.start()
